@@ -220,6 +220,25 @@ def model(case):
             "kept": kept, "dropped": dropped, "norm": norm, "scaled": scaled}
 
 
+def _rounding_free(case, key, m):
+    import itertools
+
+    vals = [float(d[3]) for d in case["deltas"] if ckey(d) == key]
+    if len(vals) <= 1:
+        return True
+    if len(vals) > 6:
+        return False
+    sums = set()
+    for perm in itertools.permutations(vals):
+        t = 0.0
+        for v in perm:
+            t += v
+        sums.add(t)
+        if len(sums) > 1:
+            return False
+    return sums == {m["merged"][key]["v"]}
+
+
 def res_sig(r):
     """Exact, order-preserving signature of a T4Result (floats by repr)."""
     return (
@@ -322,7 +341,13 @@ def check_case(case, sess: Session, history=None, full_perm_limit=6, rng=None, s
                 cut = mags[K - 1]
                 band = {k for k, v in m["scaled"].items() if abs(abs(v) - cut) <= 1e-9 * max(1e-300, cut)}
                 symdiff = set(keys) ^ set(kept.keys())
-                exact_only = all(abs(m["scaled"][k]) == cut for k in band)
+                # ... and an exact tie in the model is only binding if no tied value involved a rounding: every summation
+                # order of its contributions gives the same float, equal to the exact sum (0.2+0.1 is one ulp above the
+                # correctly rounded exact sum of the same two floats; against a plain 0.3 that is a near-tie, not a tie)
+                ncap = abs(float(caps["novelty_cap_per_node"]))
+                pre = {min(abs(m["merged"][k]["v"]), ncap) for k in band}  # magnitudes before the uniform scaling
+                exact_only = (all(abs(m["scaled"][k]) == cut for k in band) and all(_rounding_free(case, k, m) for k in band)
+                              and len(pre) == 1)  # two values one ulp apart may collide only after the scaling
                 amb = bool(symdiff) and symdiff <= band and not exact_only
             # clamp/scale borderline: a value within tol of the novelty cap
             if amb:
